@@ -29,6 +29,10 @@ CLAIMED.update({
  'C15': dict(text='PiecewiseLinearTwoPhaseMaterial and EclEpsTwoPhaseLaw are executed with symbolic monotone tables, symbolic scaled/unscaled end-point triples, relperm scaling values and saturation; z3 proves node honouring, [0,max] bounds and monotonicity, that scaled end-points map onto table end-points (two- and three-point), that scaling with the table end-points is the identity, that the inverse maps undo the forward maps, and the vertical KRW/KRWR scaling laws.',
              note='doubles as reals; material-law manager initialisation from an EclipseState (family I/II equivalence, satfunc property initialisers), three-phase combination and hysteresis scanning curves outside this check', design='4/C15'),
 })
+CLAIMED.update({
+ 'C18': dict(text='Action::Result/MatchingEntities set algebra is executed through the public API for every combination of truth values, presence of match sets and well-name choices (3+2 names over a 3-letter alphabet): AND = conjunction + intersection where set-less operands contribute none, OR = disjunction + union, ranges sorted and duplicate-free; Value::eval_cmp for every comparator with symbolic operands (scalar and per well); ActionX::ready/State::add_run as one inductive step from an arbitrary prior (count, last-run) state, deciding that an action is ready exactly when max_run, start_time and min_wait allow it - hence no history can exceed the limits.',
+             note='condition tokenising/parsing and AST evaluation against a SummaryState/Context (wildcards, dates) and Actions::pending are outside; difftime stubbed as (double)a-(double)b; times within +-2^40 s', design='4/C18'),
+})
 NA = {
 }
 ALL = ['C%02d' % i for i in range(1, 21)]
